@@ -1434,7 +1434,7 @@ pub fn c21_eof_case(c: &EofCollisionCase) -> CaseResult {
     }
     let before = pre.get(&target).cloned();
     let collision = has_code || has_nonce || has_storage;
-    let layer_name = ["ModelDB", "State", "CacheDB", "CacheDB+insert_account_storage", "WrapDatabaseRef", "State+bundle"][c.layer as usize % 6];
+    let layer_name = ["ModelDB", "State", "CacheDB", "CacheDB+insert_account_storage", "WrapDatabaseRef", "State+bundle", "CacheDB+insert_account_storage(unknown address)", "CacheDB+replace_account_storage"][c.layer as usize % 8];
     let rs = crate::histcheck::run_layered(c.layer, spec, &pre, &target, make_env(spec, &block, &tx)).map_err(|e| vec![Failure::new("C21|harness|rejected", e)])?;
     let mut post = pre.clone();
     apply_state(&mut post, &rs.state, true);
